@@ -71,3 +71,19 @@ theorem C01_label_map_domain (E : Env) (order : List Nat) (hnd : order.Nodup) (q
   ⟨P36.runL_lmap_unprocessed E order hnd q, P36.runL_lmap_processed E order hnd q⟩
 
 example : (runL P36.rowEnv P36.rowOrder).roots = run P36.rowEnv P36.rowOrder := by rfl
+
+/-- **C01 (the label map `compute` returns).** After the loop the code clears the footprints of the parentless leaves
+`_make_trunk` drops, re-numbers the structures by smallest pixel and writes every structure's final identifier over its
+own pixels (`_fill_footprint(…, recursive=False)`). `P40.finalLmap` models those writes in the order the code performs
+them; the resulting map is, for every pixel, the identifier of the structure of the returned dendrogram that owns it —
+`none` (−1) exactly for unprocessed pixels and pixels of dropped leaves; the identifiers are `0 … N−1`, all used, and two
+pixels carry the same label only if the same structure owns them. -/
+theorem C01_final_label_map (E : Env) (order : List Nat) (hnd : order.Nodup) (q : Nat) :
+    finalLmap E order q = labelOf (compute E order) q := P40.finalLmap_eq E order hnd q
+theorem C01_final_label_none_iff (E : Env) (order : List Nat) (hnd : order.Nodup) (q : Nat) :
+    finalLmap E order q = none ↔ (q ∉ order ∨ ∃ t ∈ droppedOrphans E (run E order), q ∈ t.pixels) :=
+  P40.finalLmap_none_iff E order hnd q
+theorem C01_final_labels_are_ids (E : Env) (order : List Nat) (hnd : order.Nodup) :
+    (∀ q i, finalLmap E order q = some i → i < (preL (compute E order)).length) ∧
+    (∀ i, i < (preL (compute E order)).length → ∃ q, finalLmap E order q = some i) :=
+  ⟨fun q i h => P40.finalLmap_lt E order hnd q i h, fun i hi => P40.finalLmap_surj E order hnd i hi⟩
